@@ -57,7 +57,7 @@ def run(chk, repo, tier):
     chk.rule("C02.R3", "hashed message term: bare message (basic, PoP), PK‖message (augmentation, verifying key), PK (PopVerify)", 8)
     chk.rule("C02.R4", "compared exponent is e(sig, G1)·e(H(m), PK)^-1 (accept ⇔ σ = sk·h in the formal bilinear domain)", 8)
     chk.rule("C02.R5", "the byte strings reach the point decoders unmodified: signature_to_G2(s) = decompress_G2((OS2IP(s[:48]), OS2IP(s[48:]))), "
-                       "pubkey_to_G1(k) = decompress_G1(OS2IP(k)) — no bit of the candidate is masked before the canonical-form checks (C11)", 4)
+                       "pubkey_to_G1(k) = decompress_G1(OS2IP(k)) — no bit of the candidate is masked before the canonical-form checks; signature decoder table as C11.R1", 4 + 72)
     chk.not_decided += ["the unconditional 'iff' (uniqueness needs bilinearity + non-degeneracy, C05, and canonical decoding, C11)"]
     chk.depends_on += ["C05", "C11", "C04"]
     M = Model(repo, "P")
@@ -65,6 +65,15 @@ def run(chk, repo, tier):
     G1c = hp(it0.eval_global(repo.module(CS), "G1"))
     from .C11 import byte_helpers
     byte_helpers(chk, repo, M.world, rule="C02.R5")
+    # 'exactly the canonical encoding' rests on the decoders' decision tables (C11.R1): re-stated here
+    from . import C11
+    from ..report import SubCheck
+    sub = SubCheck()
+    C11.run(sub, repo, tier)
+    known = {(f["rule"], f["construct"], f["key"]) for f in chk.known.get("findings", []) if f["property"] == "C11"}
+    for rule_, construct, key, ok, detail, where in sub.obs:
+        if rule_ == "C11.R1" and "decompress_G2" in construct and (rule_, construct, key) not in known:
+            chk.ob("C02.R5", construct, f"canonical decoding [{rule_}] {key}", ok, detail, where)
     tags = tags_of(M, repo)
     # R2a: pairwise distinct, non-empty
     vals = list(tags.items())
